@@ -23,7 +23,14 @@ def run(ctx):
     try:
         for i, rng in ctx.cases("roundtrip", ctx.n(700, 16000)):
             fmt = FORMATS[i % len(FORMATS)]
-            d = tempfile.mkdtemp(dir=tmp)
+            if rng.random() < 0.5:
+                # a path an earlier dataset of this format was written to and read from (file replaced in place)
+                d = os.path.join(tmp, "reused-" + fmt)
+                shutil.rmtree(d, ignore_errors=True)
+                os.mkdir(d)
+                ctx.rec.note("path_reused")
+            else:
+                d = tempfile.mkdtemp(dir=tmp)
             try:
                 one(ctx, rng, xr, wavespectra, fmt, d)
             finally:
